@@ -208,10 +208,10 @@ class GeometricMultigrid(Preconditioner):
         if x0 is None:
             u_f = self.smoother.solve(rhs, trans=trans)
         else:
-            r = rhs - self.A @ x0
+            r = rhs - A @ x0
             u_f = x0 + self.smoother.solve(r, trans=trans)
         for i in range(self.smooth_steps-1):
-            r = rhs - self.A @ u_f
+            r = rhs - A @ u_f
             u_f += self.smoother.solve(r, trans=trans)
 
         r = rhs - A @ u_f
@@ -219,14 +219,14 @@ class GeometricMultigrid(Preconditioner):
         r_c = self.R.T @ r
 
         # Solve at coarse level
-        u_c = self.inner_level.solve(r_c)
+        u_c = self.inner_level.solve(r_c, trans=trans)
 
         # Interpolate and correct
         u_f += self.R @ u_c
 
         # Post-smoothing
         for i in range(self.smooth_steps):
-            r = rhs - self.A @ u_f
+            r = rhs - A @ u_f
             u_f += self.smoother.solve(r, trans=trans)
         return u_f
 
